@@ -30,6 +30,24 @@ func protocolMore(t *testing.T, bind *Binding, job *Job, p *sdl.Program, acc *st
 		for _, s := range sweepSpecs(p, job, SpecData{}) {
 			do(s)
 		}
+	case "C14":
+		var closers []string
+		for _, i := range p.Instances {
+			if p.TypeByName(i.Type).Role == "closer" {
+				closers = append(closers, i.ID)
+			}
+		}
+		for i, s := range sweepSpecs(p, job, SpecData{Close: true}) {
+			if i >= 1 {
+				// a seed-chosen subset of the closers fails
+				for ci, c := range closers {
+					if mix(mix(p.Seed, uint64(i)), uint64(ci))%100 < 30 {
+						s.Faults = append(s.Faults, "close:"+c+"#0")
+					}
+				}
+			}
+			do(s)
+		}
 	case "C13":
 		specs := sweepSpecs(p, job, SpecData{})
 		for i, s := range specs {
@@ -124,6 +142,8 @@ func nonTrivialMore(prop string, w *model.World, out *model.Outcome, o *model.Ob
 		return len(w.P.Procs) >= 2 || countKind(o, "run") >= 2 || countKind(o, "load") >= 2
 	case "C13":
 		return countKind(o, "run") >= 1
+	case "C14":
+		return len(o.CloseSnaps) >= 2
 	case "C09":
 		return len(o.Fired) != 0 || out.Verdict == model.MustFail
 	case "C04":
